@@ -36,7 +36,7 @@ class Rec(System):
 
 
 def run_case(case):
-    prios = [int(p) % 4 for p in case["systems"]][:6]
+    prios = [int(p) % 4 for p in case["systems"]][:140]
     if len(prios) < 1:
         raise InvalidCase("systems")
     lg = case.get("logger", "default")
@@ -158,6 +158,8 @@ def _run(case, model, prios):
                 raise Violation("registry", f"{where}: system {sid} vanished from the registry")
     pos = order.index(f"s{ci}")
     nontrivial = (not outside and pos < len(order) - 1 and len(kinds) >= 2)
+    if len(prios) > 32:
+        kinds.add("systems>32")
     labels = ["outside" if outside else ("completer-first" if pos == 0 else ("completer-last" if pos == len(order) - 1 else "completer-middle")),
               f"reach-{mode}", f"logger-{case.get('logger', 'default')}"] + sorted(kinds)
     return {"nontrivial": nontrivial, "labels": labels}
@@ -168,8 +170,10 @@ def strategy(tier):
                       st.just({"op": "exec"}), st.just({"op": "exec_throw"}), st.just({"op": "complete"}),
                       st.builds(lambda p: {"op": "add", "prio": p}, st.integers(0, 4)),
                       st.builds(lambda i: {"op": "remove", "i": i}, st.integers(0, 7)))
+    from vf.fixtures import near_pow2
+    nsys = wone_of(*([st.integers(2, 6)] * 9 + [near_pow2(17, 130)]))
     return st.fixed_dictionaries({
-        "systems": st.lists(st.integers(0, 3), min_size=2, max_size=6),
+        "systems": nsys.flatmap(lambda n: st.lists(st.integers(0, 3), min_size=n, max_size=n)),
         "completer": st.integers(0, 5), "t": wone_of(st.integers(0, 3), st.integers(0, 12)), "outside": st.sampled_from([False, False, False, True]),
         "reach": st.sampled_from(["single", "multi"]), "extra": st.integers(0, 3),
         "logger": st.sampled_from(["default", "default", "custom", "quiet", "custom-debug"]),
